@@ -5,6 +5,8 @@ From ClapModel Require Import Base.Bytes Base.Machine Base.Utf8.
 From ClapModel Require Import Parse.Cmd Parse.Build Parse.Matcher Parse.Errors Parse.Validator Parse.Parser.
 From ClapModel Require Import Gen.ErrorTables Errors.KindTable Errors.Suggest ParseProofs.ErrorSound.
 From Coq Require Import ZArith QArith String List.
+From RecordUpdate Require Import RecordSet.
+Import RecordSetNotations.
 Import ListNotations.
 Open Scope N_scope.
 
@@ -107,3 +109,84 @@ Theorem C10_value_suggestion_exists : forall (sim : bytes -> bytes -> Q) bad goo
   value_suggestion sim bad good = Some s -> In s good.
 Proof. exact value_suggestion_exists. Qed.
 Print Assumptions C10_value_suggestion_exists.
+
+(** ** the reaction to one occurrence: every error it raises has one of five justified causes *)
+Theorem C10_react_sound : forall c idn s a raw ti st e st',
+  react_core c idn s a raw ti st = RErr e st' -> react_cause c a s raw st e.
+Proof. exact react_core_err_sound. Qed.
+Print Assumptions C10_react_sound.
+
+Theorem C10_pending_sound : forall c st e st',
+  resolve_pending c st = RErr e st' ->
+  exists p a, mt_pending (mt st) = Some p /\ find_arg c (p_id p) = Some a /\
+              react_cause c a SCmdLine (p_raw p) (st <| mt := (mt st) <| mt_pending := None |> |>) e.
+Proof. exact resolve_pending_err_sound. Qed.
+Print Assumptions C10_pending_sound.
+
+(** ** the validator *)
+Theorem C10_conflict_sound : forall c m n,
+  validate c m = VErr EArgumentConflict n ->
+  explicit_id m n /\ is_some (find_arg c n) = true /\
+  ((exists a, find_arg c n = Some a /\ a_exclusive a = true /\
+              (2 <= length (filter (fun p => is_some (find_arg c (fst p))) (explicit_entries m)))%nat)
+   \/ exists other, explicit_id m other /\ other <> n /\
+                    (directly_conflicts c n other \/ directly_conflicts c other n)).
+Proof. exact validate_conflict_sound. Qed.
+Print Assumptions C10_conflict_sound.
+
+Theorem C10_direct_conflicts_declared : forall c a l y,
+  gather_arg_direct_conflicts c a = Some l -> In y l ->
+  In y (a_blacklist a) \/ In y (a_overrides a) \/
+  exists gid g, In gid (groups_for_arg c (a_id a)) /\ find_group c gid = Some g /\
+                (In y (g_conflicts g) \/ (g_multiple g = false /\ In y (g_args g) /\ y <> a_id a)).
+Proof. exact gather_arg_direct_conflicts_in. Qed.
+Print Assumptions C10_direct_conflicts_declared.
+
+Theorem C10_missing_sound : forall c m x,
+  validate c m = VErr EMissingRequiredArgument x ->
+  exists req, gather_requires c m (required_graph c) = Some req /\ missing_cause c m req x.
+Proof. exact validate_missing_sound. Qed.
+Print Assumptions C10_missing_sound.
+
+Theorem C10_required_graph_declared : forall c x,
+  In x (required_graph c) ->
+  (exists a, In a (c_args c) /\ a_required a = true /\ a_id a = x) \/
+  (exists g, In g (c_groups c) /\ g_required g = true /\ (g_id g = x \/ In x (g_requires g))).
+Proof. exact required_graph_in. Qed.
+Print Assumptions C10_required_graph_declared.
+
+Theorem C10_requirement_set_declared : forall c m base req x,
+  gather_requires c m base = Some req -> In x req ->
+  In x base \/
+  exists p, In p (explicit_entries m) /\
+    ((exists a rs, find_arg c (fst p) = Some a /\
+                   unroll_arg_requires c (fun r => if check_explicit_m (fst r) (snd p) then Some (snd r) else None) (a_id a)
+                   = Some rs /\ In x rs)
+     \/ (exists g, find_arg c (fst p) = None /\ find_group c (fst p) = Some g /\ In x (g_requires g))).
+Proof. exact gather_requires_in. Qed.
+Print Assumptions C10_requirement_set_declared.
+
+(** ** unknown-token triage *)
+Theorem C10_unknown_long_sound : forall c flag ok value pst pc vaf st st1 a vaf1,
+  parse_long_arg c flag ok value pst pc vaf st = ROk (st1, PRNoMatchingArg a, vaf1) ->
+  a = flag /\ st1 = st /\
+  (ok = false \/ (get_long c flag = None /\ possible_long_flag_subcommand c flag = None)).
+Proof. exact parse_long_no_match_sound. Qed.
+Print Assumptions C10_unknown_long_sound.
+
+Theorem C10_unknown_short_sound : forall c fuel r ret vaf st st1 a vaf1,
+  not_no_match ret ->
+  short_loop c fuel r ret vaf st = ROk (st1, PRNoMatchingArg a, vaf1) ->
+  (exists ch, a = DASH :: encode_utf8 ch /\ get_short c ch = None /\ find_short_subcmd c ch = None)
+  \/ (exists r' rest, sf_next r' = Some (inr rest, []) /\ a = DASH :: rest).
+Proof. exact short_loop_no_match_sound. Qed.
+Print Assumptions C10_unknown_short_sound.
+
+Theorem C10_match_arg_error_kinds : forall c tok vaf trailing,
+  let e := match_arg_error c tok vaf trailing in
+  e_arg e = tok /\
+  (e_kind e = EUnknownArgument
+   \/ (e_kind e = EInvalidSubcommand /\ has_subcommands c = true)
+   \/ (e_kind e = EArgumentConflict /\ has_subcommands c = true /\ is_set s_args_negate_subs c = true /\ vaf = true)).
+Proof. exact match_arg_error_kinds. Qed.
+Print Assumptions C10_match_arg_error_kinds.
